@@ -138,6 +138,17 @@ func (d *DataSpec) Materialize() []map[string]string {
 var identNames = []string{"a", "b", "c", "country", "x1", "Tag", "k_2", "z", "col9", "Q"}
 var oddNames = []string{"", " ", "a b", "ü", "\xff\x00x"[0:1], "a=b", "\"", "0col", "a,b"}
 
+// genDataSpecUTF8 is genDataSpec restricted to identifier column names and valid UTF-8 values.
+func genDataSpecUTF8(r *Rng, maxRows int) *DataSpec {
+	d := genDataSpec(r, maxRows, true)
+	for i := range d.Cols {
+		if d.Cols[i].Style == "binary" {
+			d.Cols[i].Style = "utf8"
+		}
+	}
+	return d
+}
+
 func genDataSpec(r *Rng, maxRows int, identOnly bool) *DataSpec {
 	sizes := []int{0, 1, 2, 3, 5, 8, 17, 40, 100, 300}
 	n := Pick(r, sizes)
@@ -186,6 +197,7 @@ func genDataSpecN(r *Rng, n int, identOnly bool) *DataSpec {
 
 // pair universe of a dataset spec, for drawing leaves
 type leafPool struct {
+	utf8  bool       // only valid UTF-8 strings may be drawn (protobuf string fields)
 	cols  []string   // raw column names
 	vals  [][]string // raw values per column (a sample)
 	extra []string   // unknown columns
@@ -236,6 +248,9 @@ func (p *leafPool) leaf(r *Rng, allowUnknown bool) *Ex {
 	switch {
 	case r.Chance(1, 8): // a value absent from the data
 		v = Pick(r, []string{"absent", "", "99999", "\xff"})
+		if p.utf8 && v == "\xff" {
+			v = "é"
+		}
 	case r.Chance(1, 10): // another column's value
 		cj := r.Intn(len(p.cols))
 		v = Pick(r, p.vals[cj])
